@@ -354,6 +354,8 @@ def _roots(fn, expr, defs, out, seen):
 
 def run(ctx):
     """R07.5: only the tool's standard output becomes merged text."""
+    ctx.rule('R07.7', 'the merge package never decides what text to keep with a similarity predicate: alignment predicates (compare_*) are called from the diffing package only', floor=1)
+    ctx.rule('R07.8', 'one line model: every Python site that creates or consumes line keys splits with str.splitlines(True)', floor=4)
     ctx.rule('R07.6', 'concurrently inserted cells are paired by consistent cursors: in every arm of the splitter `taken` advances by the local and `offset` by (remote - local) items '
              '(a slip pairs a local cell with the wrong remote cell and the right one is referenced by no decision: its lines vanish)', floor=4)
     ctx.rule('R07.5', 'the external text merge takes the merged text from the tool\'s stdout only: stderr is not redirected into it', floor=1)
@@ -382,3 +384,36 @@ def run(ctx):
 
     from .c09 import split_addrange_algebra
     split_addrange_algebra(ctx, 'R07.6')
+
+    # ---------------------------------------------------------------- R07.7 similarity is for alignment, equality for dropping text
+    cg = ctx.cg
+    preds = set()
+    for key, fs in cg.tables.items():
+        if key[1] in ('notebook_predicates',):
+            preds |= {t[1] for t in fs if t[0] == 'func'}
+    preds |= {f for f in repo.functions if f.startswith('nbdime.diffing.') and f.split(':')[1].startswith('compare_')}
+    if len(preds) < 5:
+        raise AnalysisError('similarity predicates of the diffing package not found')
+    n77 = 0
+    bad77 = []
+    for fid, fn in sorted(repo.functions.items()):
+        if not fid.startswith('nbdime.merging.'):
+            continue
+        for c in calls_in(fn, nested=False):
+            n77 += 1
+            for t in cg.resolve(c.func, fn):
+                if t[0] == 'func' and t[1] in preds:
+                    bad77.append((fid, c, t[1]))
+    for fid, c, pred in bad77:
+        ctx.inst('R07.7', fid, repo.norm(c), False,
+                 '%s is a similarity heuristic (true for texts that merely resemble each other): using it in the merge package to decide that two cells/lines are '
+                 '"the same" keeps one and silently drops the other side\'s differing lines' % pred, c)
+    ctx.inst('R07.7', 'nbdime.merging', '%d calls examined, %d alignment predicates known' % (n77, len(preds)), True,
+             'none is a direct call to an alignment predicate' if not bad77 else '%d direct calls (reported separately)' % len(bad77), None, nontrivial=True)
+    # ---------------------------------------------------------------- R07.8
+    from ..linemodel import python_line_sites
+    lsites = python_line_sites(ctx)
+    for f, sig, node in lsites:
+        ok = sig == ['splitlines(True)']
+        ctx.inst('R07.8', f, 'line splitter: %s' % sig, ok, 'str.splitlines(True)' if ok else
+                 'this site counts lines differently from the others: line-keyed patches of the merged source land on the wrong line (a line is dropped, another duplicated)', node)
